@@ -67,7 +67,14 @@ def lake_build(targets, timeout=3000):
 def props_files(pid):
     """Props/<pid>.lean and Props/<pid><Suffix>.lean (e.g. C01Framing.lean)."""
     d = os.path.join(LEAN, "Amshan", "Props")
-    return sorted(os.path.join(d, f) for f in os.listdir(d) if re.fullmatch(re.escape(pid) + r"([A-Za-z_][A-Za-z0-9_]*)?\.lean", f))
+    res = []
+    for f in sorted(os.listdir(d)):
+        if re.fullmatch(re.escape(pid) + r"([A-Za-z_][A-Za-z0-9_]*)?\.lean", f):
+            with open(os.path.join(d, f)) as fh:
+                if fh.readline().startswith("-- WIP"):
+                    continue        # work in progress: not part of the audited set (and not claimed anywhere)
+            res.append(os.path.join(d, f))
+    return res
 
 
 def props_modules(pid):
